@@ -179,6 +179,95 @@ def execute(cfg, prefix):
         sc.close()
 
 
+CFG2 = {
+    "node": {"ips": ["10.0.0.1"], "tcp_port": 3868, "idle_timeout": 600, "dwa_timeout": 50, "wakeup": 5},
+    "peers": [{"name": "peer1.example.org"}, {"name": "peer2.example.org"}, {"name": "peer3.example.org"}],
+    "apps": [{"id": env.APP_ACCT, "acct": True, "peers": [0, 1, 2]}],
+}
+
+
+def execute_multi(cfg, prefix):
+    """Several ready connections have output pending in the same pass of the I/O loop (the I/O thread runs last: the kernel's second
+    scheduling policy), each socket with its own plan of partial writes / soft errors.  cfg = (plans per connection, messages per
+    connection, window): window=False runs the one default schedule of that policy, window=True explores schedules (bound given by the
+    caller) under the first policy.  Oracle per connection: bytes accepted == concatenation of its messages' encodings in order."""
+    plans, nmsg, window = cfg
+    _set_points()
+    ch = scheddfs.Chooser(prefix)
+    sc = scenario.Scenario(CFG2, chooser=ch, max_socks=len(plans))
+    try:
+        nw = sc.start()
+        conns = []
+        for i in range(len(plans)):
+            sc.apply(("accept",))
+            sc.apply(("m", i, f"cer_p{i}"))
+            conns.append(nw.conn_of(sc.socks[i].fs))
+        if any(c is None or c.state != 0x12 for c in conns):
+            raise sk.HarnessError("set-up: connections not ready")
+        base = [len(s.fs.sent) for s in sc.socks]
+        msgs = []
+        for i, plan in enumerate(plans):
+            ms = make_msgs(("ok",) * nmsg)
+            for k, m in enumerate(ms):
+                m.header.hop_by_hop_identifier = 0x1000 * (i + 1) + k
+                m.origin_state_id = 100 * (i + 1) + k
+            msgs.append(ms)
+            for name in plan:
+                sc.socks[i].fs.send_plan.append(SEND_OPTS[name])
+
+        def produce(i):
+            for m in msgs[i]:
+                nw.node.send_message(conns[i], m)
+        if not window:
+            nw.world.low_kind = "_handle_connections"
+        nw.world.points_on = window
+        ch.window = window
+        for i in range(len(plans)):
+            sk.spawn(functools.partial(produce, i), f"producer{i}")
+        nw.run()
+        ch.window = False
+        nw.world.points_on = False
+        nw.world.low_kind = None
+        nw.world.advance(6)
+        nw.world.advance(6)
+        res = []
+        for i, s in enumerate(sc.socks):
+            got = bytes(s.fs.sent[base[i]:])
+            exp = b"".join(m.as_bytes() for m in msgs[i])
+            res.append((got == exp, len(got), len(exp), len(conns[i].write_buffer), s.fs.closed, got.hex()[:120] if got != exp else "", exp.hex()[:120] if got != exp else ""))
+        return (tuple(res), tuple(nw.thread_failures())), ch
+    finally:
+        sc.close()
+
+
+def check_multi(obs):
+    res, fails = obs
+    vs = []
+    for i, (ok, ngot, nexp, left, closed, got, exp) in enumerate(res):
+        if closed:
+            vs.append(("stream:several-connections:connection-closed-by-a-soft-write-error-or-partial-write", f"connection {i}"))
+        elif not ok:
+            what = "bytes-left-unsent-at-quiescence" if ngot < nexp and exp.startswith(got) else ("more-bytes-than-queued-(duplication)" if ngot > nexp else "bytes-differ-from-the-FIFO-concatenation")
+            vs.append((f"stream:several-connections:{what}", f"connection {i}: sent {ngot} bytes, expected {nexp}, buffer holds {left}: {got} vs {exp}"))
+        elif left:
+            vs.append(("stream:several-connections:write-buffer-not-empty-at-quiescence", f"connection {i}: {left} bytes left"))
+    if fails:
+        vs.append(("stream:worker-thread-died", f"{fails}"))
+    return vs
+
+
+def configs_multi(tier):
+    out = []
+    single = [(), ("1",), ("half",), ("3",), ("EAGAIN",), ("EINTR",), ("ENOBUFS",), ("half", "EAGAIN"), ("EAGAIN", "1")]
+    for a in single:
+        for b in single:
+            out.append((((a, b), 2, False), 0))
+    for a, b, c in (((), ("half",), ("EAGAIN",)), (("1",), ("EINTR",), ("half",)), (("EAGAIN",), ("3",), ())):
+        out.append((((a, b, c), 2, False), 0))
+    out.append((((("half",), ("EAGAIN",)), 1, True), 1 if tier != "thorough" else 2))
+    return out
+
+
 def check(obs):
     ok, order, ngot, nexp, left, closed, fails, got, exp = obs
     vs = []
@@ -242,7 +331,17 @@ def run(tier):
             r["bound_completed"] = b if not r["capped"] else None
         cfgs = cfgs + extra
         results = results + res2
-    execs = 0
+    mcfgs = configs_multi(tier)
+    mres = scheddfs.explore_many([(functools.partial(execute_multi, c), check_multi, b) for c, b in mcfgs])
+    mexecs = 0
+    for (c, b), r in zip(mcfgs, mres):
+        mexecs += r["executions"]
+        for (key, detail), choices in r["violations"]:
+            rep.add(Violation(key, f"send-plans per connection {c[0]}, {c[1]} messages each, {'schedules explored' if c[2] else 'I/O thread scheduled last'} bound {b} schedule {choices}: {detail}",
+                              {"multi": [[list(p) for p in c[0]], c[1], c[2]], "choices": choices}))
+    rep.sample({"several_connections_with_output_pending_in_one_pass": len(mcfgs), "executions": mexecs,
+                "send_plans": "9 x 9 plans on two connections, 3 triples on three connections (I/O thread last), one pair with schedule exploration"}, 60)
+    execs = mexecs
     outcomes = 0
     maxpts = 0
     for (c, b), r in zip(cfgs, results):
@@ -264,6 +363,11 @@ def run(tier):
 
 
 def replay(case):
+    if "multi" in case:
+        from .c16 import _replay_choices
+        cfg = (tuple(tuple(p) for p in case["multi"][0]), case["multi"][1], case["multi"][2])
+        obs, ch = _replay_choices(functools.partial(execute_multi, cfg), case["choices"])
+        return [Violation(k, d) for k, d in check_multi(obs)]
     cfg = (tuple(case["cfg"][0]), case["cfg"][1], tuple(case["cfg"][2]))
     from .c16 import _replay_choices
     obs, ch = _replay_choices(functools.partial(execute, cfg), case["choices"])
